@@ -58,6 +58,18 @@ CLAIMED = {
             "All interleavings of chunk boundaries, Pending and EOF are explored on the model; the code is bound by trace validation of every "
             "poll_read (capacity offered = bytes still needed) and delivery, for every body length 0..65535 in thorough.",
             "DESIGN.md 8 (C04), 6", TB),
+    "C05": ("model_checking",
+            "TLA+ I-spec of one command exchange (ZvtSequence: step function over a PT script) model-checked for all 18 commands x all scripts "
+            "to depth 3 (quick) / 5 (thorough) with P_C05 as invariants; every model behaviour replayed against the real into_stream through a "
+            "scripted peer and compared event by event; random 40-frame exchanges validated by TLC (TraceSequence)",
+            "Bounded-exhaustive over reply scripts (every order, repetition, final position, frames queued behind the final packet), the code is "
+            "bound in both directions; the P-spec is evaluated on the observed log only when the I-spec rejects it.",
+            "DESIGN.md 8 (C05), 6", TB),
+    "C06": ("model_checking",
+            "same I-spec and runs as C05 with the fault alphabet (NACK, foreign control field, malformed body, truncated frame, EOF) at every "
+            "position, P_C06 (one error, then silence, no answer for the failing frame) as invariants and as trace predicates",
+            "Every fault kind at every position of every script up to the depth bound, plus frames the PT might still send afterwards.",
+            "DESIGN.md 8 (C06), 6", TB),
     "C13": ("model_checking",
             "TLC re-assembles reference-encoded tagged groups (Gen_C13: permutations, duplicates, removals, foreign tags) with the outcome the "
             "property demands; the real decoder runs on every case; TLC judges (TraceCodec P13 flags)",
